@@ -98,13 +98,13 @@ Print Assumptions C01_residual_zero_iff_collocation.
 
 (* ------------------------------------------------------------------------------------------------
    Blocks of time-parallel steps (MSSDC / MLSDC / PFASST).  Model/Block.v: the state of every (step, level) and the four
-   primitive operations the controller composes (Sweep, Recv = forward transfer of the end value, Restrict, Prolong);
+   primitive operations the controller composes (Sweep, Send = compute the end value — last node or quadrature —, Recv = take the end value the predecessor has sent, Restrict, Prolong);
    pfasst_iteration = the schedule of one controller iteration, tied to the real controller_nonMPI by exact correspondence on
    blocks of 2-3 steps with 1-3 levels (Jacobi and Gauss-Seidel coupling, generic_implicit and IMEX sweepers, both
    prolongation modes) every run.
 
    THEOREM: a block whose fine levels hold the collocation solutions of their steps (holds_solution: consistent right-hand
-   sides, zero defect), chained by their end values (initial value of step p = last node of step p-1), is left unchanged —
+   sides, zero defect), chained by their end values (initial value of step p = end value of step p-1: last node, or the quadrature end value for a single level), is left unchanged —
    same values at every node and the initial point, same right-hand sides — by EVERY schedule of sweeps, forward transfers,
    restrictions and prolongations inside the hierarchy: any number of steps and levels, any number of sweeps, any order
    (Jacobi, Gauss-Seidel, or anything else).  Number of time-parallel steps, coupling mode, coarse levels and sweep counts can
@@ -118,32 +118,35 @@ Section C01_block.
   Variable lev : nat -> @level K X.
   Variable xf : nat -> @xfer K X.
   Variable tstart : nat -> K.
+  Variable lend : nat -> @endp K.              (* end-point mode and weights of every level *)
   Variable P L : nat.
   Hypothesis Hlev : forall l, l < L -> level_ok kO kmul ksub keqb imex (lev l) /\ 1 <= lM (lev l).
   Hypothesis Hxf : forall l, S l < L ->
     xfer_ok kO kI kadd ksub (xf l) (lev l) (lev (S l)) /\
     (forall m, 1 <= m <= lM (lev l) -> xRcoll (xf l) (lM (lev (S l))) m = if Nat.eqb m (lM (lev l)) then kI else kO).
+  (* more than one level: the end value is the last node on every level (what the controller enforces for PFASST) *)
+  Hypothesis Hcopy : 1 < L -> forall l, l < L -> erin (lend l) && negb (edcu (lend l)) = true.
   Variable R0 : nat -> @lvst K X.
   Hypothesis H0 : forall p, p < P ->
     holds_solution kO kadd kmul ksub (tstart p) imex (lev 0) (stau (R0 p)) (su (R0 p), sf (R0 p)).
-  Hypothesis Hchain : forall p, 0 < p < P -> forall x, su (R0 p) 0 x = su (R0 (p - 1)) (lM (lev 0)) x.
+  Hypothesis Hchain : forall p, 0 < p < P -> forall x, su (R0 p) 0 x = end_value kO kadd kmul imex lev lend 0 (R0 (p - 1)) x.
 
   Theorem C01_block_fixed_point_any_schedule : forall ops,
     Forall (op_in_bounds L) ops ->
     forall p, p < P -> 0 < L ->
-    let B := run_ops kO kadd kmul ksub keqb imex lev xf tstart ops (init_block kO P R0) in
+    let B := run_ops kO kadd kmul ksub keqb imex lev xf tstart lend ops (init_block kO P R0) in
     svalid (B p 0) = true ->
     same (lev 0) (su (B p 0), sf (B p 0)) (su (R0 p), sf (R0 p)).
-  Proof. exact (block_fixed_point_any_schedule kO kI kadd kmul ksub kopp keqb Rth keqb_true imex lev xf tstart P L Hlev Hxf R0 H0 Hchain). Qed.
+  Proof. exact (block_fixed_point_any_schedule kO kI kadd kmul ksub kopp keqb Rth keqb_true imex lev xf tstart lend P L Hlev Hxf Hcopy R0 H0 Hchain). Qed.
 
   (* ... and ONE ITERATION OF THE CONTROLLER (any number of steps and levels, any sweep counts, Jacobi or Gauss-Seidel coupling):
      its schedule stays inside the hierarchy and keeps every entry valid, so every step comes back unchanged *)
   Theorem C01_controller_iteration_fixed_point : 0 < L -> forall nsw jacobi,
-    let B := run_ops kO kadd kmul ksub keqb imex lev xf tstart (pfasst_iteration P L nsw jacobi) (init_block kO P R0) in
+    let B := run_ops kO kadd kmul ksub keqb imex lev xf tstart lend (pfasst_iteration P L nsw jacobi) (init_block kO P R0) in
     forall p, p < P ->
       svalid (B p 0) = true /\
       same (lev 0) (su (B p 0), sf (B p 0)) (su (R0 p), sf (R0 p)).
-  Proof. exact (fun HL => controller_iteration_fixed_point kO kI kadd kmul ksub kopp keqb Rth keqb_true imex lev xf tstart P L HL Hlev Hxf R0 H0 Hchain). Qed.
+  Proof. exact (fun HL => controller_iteration_fixed_point kO kI kadd kmul ksub kopp keqb Rth keqb_true imex lev xf tstart lend P L HL Hlev Hxf Hcopy R0 H0 Hchain). Qed.
 
   Theorem C01_controller_schedule_in_bounds : forall nsw jacobi, Forall (op_in_bounds L) (pfasst_iteration P L nsw jacobi).
   Proof. exact (pfasst_iteration_in_bounds L P). Qed.
@@ -156,7 +159,7 @@ Print Assumptions C01_controller_schedule_in_bounds.
    schedule, and the theorem returns both steps unchanged *)
 Example C01_block_hypotheses_satisfiable :
   forall p, p < 2 ->
-  let B := run_ops exK0 Qcanon.Qcplus Qcanon.Qcmult Qcanon.Qcminus ex_eqb false bx_lev bx_xf bx_tstart bx_ops (init_block exK0 2 bx_R0) in
+  let B := run_ops exK0 Qcanon.Qcplus Qcanon.Qcmult Qcanon.Qcminus ex_eqb false bx_lev bx_xf bx_tstart bx_lend bx_ops (init_block exK0 2 bx_R0) in
   same (bx_lev 0) (su (B p 0), sf (B p 0)) (su (bx_R0 p), sf (bx_R0 p)).
 Proof. exact bx_fixed. Qed.
 Print Assumptions C01_block_hypotheses_satisfiable.
